@@ -273,6 +273,9 @@ private:
             if (k == "setData") { TRY(cd->setData((const XMLCh*)text.c_str())); std::string e = outcome("setData"); if (!e.empty()) return e; w.m.replaceData(A->r, 0, len, text); }
             else if (k == "appendData") { TRY(cd->appendData((const XMLCh*)text.c_str())); std::string e = outcome("appendData"); if (!e.empty()) return e; w.m.replaceData(A->r, len, 0, text); }
             else { if (off > len) v.add(refdom::INDEX_SIZE_ERR);
+                if (k != "insertData" && op.geti("t") % 8 == 7) { cnt = (size_t)-1 - (size_t)(m % 3); g_run.probe("huge_count"); }      // the "up to the end" idiom: a count near SIZE_MAX (offset + count wraps)
+                if (k != "insertData" && off <= len) { const XMLCh* sub = nullptr; bool t2 = false; try { sub = cd->substringData(off, cnt); } catch (const DOMException&) { t2 = true; }
+                    std::u16string want = A->r->value.substr(off, std::min(cnt, len - off)); if (t2 || !sub || std::u16string((const char16_t*)sub) != want) return "dom:substring-data|substringData(" + std::to_string(off) + ", " + std::to_string(cnt) + ") of a node with " + std::to_string(len) + " characters " + (t2 ? "threw" : "returned '" + (sub ? n8(std::u16string((const char16_t*)sub)) : std::string("null")) + "'") + ", expected '" + n8(want) + "'"; }
                 if (k == "insertData") { TRY(cd->insertData(off, (const XMLCh*)text.c_str())); std::string e = outcome("insertData"); if (!e.empty() || !v.ok()) return e; w.m.replaceData(A->r, off, 0, text); }
                 else if (k == "deleteData") { TRY(cd->deleteData(off, cnt)); std::string e = outcome("deleteData"); if (!e.empty() || !v.ok()) return e; w.m.replaceData(A->r, off, cnt, u""); }
                 else { TRY(cd->replaceData(off, cnt, (const XMLCh*)text.c_str())); std::string e = outcome("replaceData"); if (!e.empty() || !v.ok()) return e; w.m.replaceData(A->r, off, cnt, u""); w.m.replaceData(A->r, off, 0, text); } }      // replaceData = deleteData, then insertData
